@@ -1,0 +1,1 @@
+//! Differential-driver access to crate-private items (group: ben). See /verif/DESIGN.md.
